@@ -473,6 +473,10 @@ def execute(world, op, dry=False):
             tags.append("key-is-object")
             pool = raw_children(k)[0 if lst == "sections" else 1] if kind(k) in ("doc", "sec") else []
             idx = next((i for i, c in enumerate(pool) if c is idx_key), n + 5)
+        elif isinstance(idx, dict) and "$slice" in idx:
+            idx_key = slice(*idx["$slice"])
+            tags.append("key-is-slice")
+            idx = n + 5
         elif not isinstance(idx, int):
             idx_key = dec(idx)
             tags.append("index-not-an-integer")
